@@ -80,6 +80,7 @@ type Builder struct {
 	OpenNestedStale   bool
 	OpenPtrSrcWhole   bool // F-UPDATE-PTRSRC-WHOLE
 	noDot             bool
+	ptrBoost          bool // favour pointer shapes (default methods: nested pointer builds)
 	OpenNilPtrSub     bool // F-UPDATE-NILLABLE-CALL
 	noPtrToNamed      bool
 
@@ -271,7 +272,7 @@ func (b *Builder) Pair(depth int) (*spec.T, *spec.T) {
 		choices[0].w = 14
 		choices = append(choices,
 			choice{"ptr", 12}, choice{"tptr", 8}, choice{"slice", 12}, choice{"map", 8},
-			choice{"struct", 22}, choice{"ustruct", 6})
+			choice{"struct", 22}, choice{"ustruct", 6}, choice{"nmap", 4}, choice{"nslice", 4})
 		if b.O.Flags {
 			choices = append(choices, choice{"sptr", 6})
 		}
@@ -291,7 +292,7 @@ func (b *Builder) Pair(depth int) (*spec.T, *spec.T) {
 			choices = append(choices, choice{"defect-shape", 25})
 		}
 	}
-	if b.O.PtrHeavy && depth > 0 {
+	if (b.O.PtrHeavy || b.ptrBoost) && depth > 0 {
 		choices = append(choices, choice{"ptr", 15}, choice{"tptr", 15}, choice{"sptr", 15}, choice{"pptr", 10}, choice{"tpptr", 8}, choice{"spptr", 8})
 	}
 	if b.O.Enums {
@@ -401,6 +402,28 @@ func (b *Builder) Pair(depth int) (*spec.T, *spec.T) {
 		b.topLevel = true // map values are built into a temporary first
 		vs, vt := b.pairAssign(depth - 1)
 		return spec.Map(ks, vs), spec.Map(kt, vt)
+	case "nmap", "nslice":
+		// named container types: converted by generated methods of their own
+		var su, tu *spec.T
+		if pick == "nmap" {
+			ks, kt := b.keyPair()
+			b.topLevel = true
+			vs, vt := b.pairAssign(depth - 1)
+			su, tu = spec.Map(ks, vs), spec.Map(kt, vt)
+		} else {
+			if b.noPtrToNamed {
+				// a nil named slice is overwritten through its sub-method (F-UPDATE-NILLABLE-CALL)
+				b.label("excluded:F-UPDATE-NILLABLE-CALL")
+				return b.leafBasic()
+			}
+			es, et := b.pairAssign(depth - 1)
+			su, tu = spec.Slice(es), spec.Slice(et)
+		}
+		id := b.id()
+		sn, tn := fmt.Sprintf("NC%d", id), fmt.Sprintf("MC%d", id)
+		b.A.Types = append(b.A.Types, &spec.TypeDecl{Name: sn, U: su})
+		b.B.Types = append(b.B.Types, &spec.TypeDecl{Name: tn, U: tu})
+		return spec.Named(b.A.Key, sn), spec.Named(b.B.Key, tn)
 	case "struct":
 		return b.namedStruct(depth)
 	case "ustruct":
@@ -836,7 +859,10 @@ func (b *Builder) fields(depth int, own *model.Method, sd *spec.TypeDecl) ([]spe
 		return c
 	}
 	for i := 0; i < n; i++ {
-		variants := []string{"plain", "plain", "plain", "srconly"}
+		variants := []string{"plain", "plain", "plain", "srconly", "tagged"}
+		if !b.comparableOnly && !b.noNillable {
+			variants = append(variants, "embedded")
+		}
 		if own != nil {
 			variants = append(variants, "rename", "recase", "nest", "extra-ignore", "extra-missing", "automap", "recase-exact")
 			if b.noDot {
@@ -879,6 +905,28 @@ func (b *Builder) fields(depth int, own *model.Method, sd *spec.TypeDecl) ([]spe
 			s, t := b.pairAssign(depth - 1)
 			fs = append(fs, spec.F(nm, s))
 			ft = append(ft, spec.F(nm, t))
+		case "tagged":
+			nm := name()
+			s, t := b.pairAssign(depth - 1)
+			tag := fmt.Sprintf(`json:"%s,omitempty" db:"c%d"`, strings.ToLower(nm), b.id())
+			fs = append(fs, spec.Field{Name: nm, T: s, Tag: tag})
+			ft = append(ft, spec.Field{Name: nm, T: t, Tag: tag})
+		case "embedded":
+			// both sides embed the same small named struct, optionally tagged
+			id := b.id()
+			en := fmt.Sprintf("Emb%d", id)
+			if used[strings.ToLower(en)] {
+				break
+			}
+			used[strings.ToLower(en)] = true
+			b.A.Types = append(b.A.Types, &spec.TypeDecl{Name: en, U: spec.Struct(spec.F("V", spec.Basic("int")), spec.F("W", spec.Basic("string")))})
+			et := spec.Named(b.A.Key, en)
+			tag := ""
+			if b.coin("embedded-tag") {
+				tag = `json:",inline"`
+			}
+			fs = append(fs, spec.Field{Name: en, T: et, Embedded: true, Tag: tag})
+			ft = append(ft, spec.Field{Name: en, T: et, Embedded: true, Tag: tag})
 		case "srconly":
 			s, _ := b.leafBasic()
 			fs = append(fs, spec.F(name(), s))
@@ -1355,8 +1403,9 @@ func (b *Builder) DefaultMethod(name string, depth int) *model.Method {
 	if b.OpenNilPtrSub && (m.Settings.ZeroNillable || b.Conv.Settings.ZeroNillable) {
 		b.noPtrToNamed = true
 	}
-	s, t := b.structPairFor(m, depth, false)
-	b.inUpdate, b.comparableOnly, b.noPtrToNamed = false, false, false
+	b.ptrBoost = b.coin("default-ptr-boost")
+	s, t := b.structPairFor(m, max(depth, 2), false)
+	b.inUpdate, b.comparableOnly, b.noPtrToNamed, b.ptrBoost = false, false, false, false
 	srcT, dstT := s, t
 	switch b.draw(4, "default-shape") {
 	case 0:
